@@ -214,6 +214,7 @@ def checkOp (c : OCfg) (beh : Behaviour) (i : Nat) (st : OSt) (op : Op) (bytes :
     | .normalBuffer => { st with vt := before.feedAll bytes, lastBuf := some false }
     | .altBuffer => { st with vt := before.feedAll bytes, lastBuf := some true }
     | .rawWrite _ => { st with vt := before.feedAll bytes }
+    | .input _ => (if bytes.isEmpty then st else st.fail s!"C08@{i} input bytes caused output") 
     | .setSize e =>
       let st := if bytes.isEmpty then st else st.fail s!"C08@{i} set_size wrote bytes"
       { st with vt := resizeVT c before e.width.toNat e.height.toNat, sized := true, exp := none, savedExp := none }
